@@ -9,6 +9,9 @@ CHECKS = {
     "C01": dict(pkg="c01", shards=16,
                 rule="protowire primitives vs an independent reference encoder (bit-length/boundary enumeration + rapid draws)",
                 assumptions=["reference varint/zigzag/fixed encoders written from the encoding spec; math/big; encoding/binary"]),
+    "C03": dict(pkg="c03", shards=16,
+                rule="binary round trip on the abstract message model over every linked message type",
+                assumptions=["harness message model + reference wire encoder (checked against protowire by C01/C02)", "protoreflect Set/Get/Range used to build and read messages"]),
 }
 
 # properties deliberately not claimed, with reasons (everything else missing from CHECKS is "not built yet")
